@@ -248,6 +248,34 @@ func runC29(c *Ctx) error {
 		c29dec(c, b, true, "noise")
 		c29stream(c, c.c29chunks(b), c.Bool(), true)
 	}
+	// extreme length words (uint64 wrap-around candidates) in the count and in item lengths
+	extremes := []uint64{0xFFFFFFFFFFFFFFFF, 0xFFFFFFFFFFFFFFF8, 0xFFFFFFFFFFFFFFF9, 0xFFFFFFFFFFFFFFF0, 1 << 63, 1<<63 - 1, 1 << 32, 1<<32 - 8, 1<<31 - 1, 1 << 31, 32767, 32768, 65535}
+	for _, x := range extremes {
+		for _, y := range extremes {
+			for tail := 0; tail <= 9; tail += 3 {
+				b := append([]byte{}, util.Uint64ToBytes(x)...)
+				c29dec(c, append(append([]byte{}, b...), c.Bytes(tail)...), true, "extreme-count")
+				// count 1 or 2, first item length extreme
+				for _, cnt := range []uint64{1, 2} {
+					bb := append(util.Uint64ToBytes(cnt), util.Uint64ToBytes(y)...)
+					bb = append(bb, c.Bytes(tail)...)
+					c29dec(c, bb, true, "extreme-item")
+					if y != 1<<31-1 { // an accepted 2 GiB announcement only allocates; not fed to the stream reader
+						c29stream(c, c.c29chunks(bb), false, true)
+					}
+				}
+			}
+		}
+		// a valid first item followed by an extreme second length
+		bb := append(util.Uint64ToBytes(2), util.Uint64ToBytes(3)...)
+		bb = append(bb, 1, 2, 3)
+		bb = append(bb, util.Uint64ToBytes(x)...)
+		bb = append(bb, c.Bytes(5)...)
+		c29dec(c, bb, true, "extreme-item")
+		if x != 1<<31-1 {
+			c29stream(c, c.c29chunks(bb), true, true)
+		}
+	}
 	// the count limit: 32767 is the largest list; above it the writer must refuse, and a
 	// buffer announcing more must be an error
 	for _, n := range []int{32766, 32767, 32768, 40000} {
